@@ -391,7 +391,7 @@ fn check_decode(bytes: &[u8], rep: &mut Report) {
 
 pub fn run(ctx: &Ctx) -> Outcome {
     let fills = ctx.size(20_000, 2_000_000);
-    let report = run_sharded(ctx, 1 + 256 + 41, |shard, rep| {
+    let mut report = run_sharded(ctx, 1 + 256 + 41, |shard, rep| {
         if shard == 0 {
             for t in TYPES.iter() {
                 check_type(t.ty, t.name, Some((t.family, t.id, t.w, t.h)), rep);
@@ -476,6 +476,12 @@ pub fn run(ctx: &Ctx) -> Outcome {
             }
         }
     });
+    {
+        // the same calls from a thread-local destructor while a thread exits (see exitprobe.rs)
+        let mut at_exit = Report::new();
+        crate::exitprobe::check("sign_type", MON_D, &mut at_exit);
+        report.merge(at_exit);
+    }
     let floors = vec![
         floor("11/11 supported types checked", report.get("types_checked") == 11, report.get("types_checked")),
         floor("all 65536 (family, id) pairs swept", report.get("pairs_swept") == 65_536, report.get("pairs_swept")),
